@@ -443,7 +443,7 @@ func c03Concurrent(r *Run, idx int, rng *rand.Rand) {
 }
 
 func runC03(r *Run) {
-	r.Rule("case = (cache kind, TTL class, maintenance stall method x virtual stall duration, read path, written by Set or loader, TTL re-timing) with a sweep of reads across the deadline and later reads at +1 tick / +35 s / +1 h; plus concurrent real-time sweeps. " +
+	r.Rule("case = (cache kind, TTL class, maintenance stall method x virtual stall duration, read path, written by Set or loader, TTL re-timing) with a sweep of reads across the deadline and later reads at +1 tick / +35 s / +1 h; plus concurrent real-time sweeps; plus, on hybrid / hybrid-loading caches, scripted single-key lives (Set / loader / forced eviction to the secondary tier / deadline passing in either tier with the cached clock refreshed or lagging / Delete) in which a Get answered without a loader run must not return a value whose deadline has passed. " +
 		"Non-trivial = every case (each places reads within microseconds of a deadline or behind a stale cached clock); distinct by the case tuple")
 	r.Assume("deadline used = virtual time at the RETURN of the write + ttl (the latest the deadline can be); a read is judged by the instant it was invoked",
 		"virtual time: the cache's clock origin is shifted while no client call is in flight; during a stall the policy lock is held by the staller so nobody reads the clock concurrently")
@@ -482,4 +482,12 @@ func runC03(r *Run) {
 	})
 	nc := r.Pick(200, 3000)
 	parMap(nc, 4, func(i int) { c03Concurrent(r, i, r.Rng(int64(500000+i))) })
+	// hybrid and hybrid-loading caches: single-key lives crossing the two tiers (c15.go lifeScript), judged here for
+	// deadlines only; sequential, because the hand-off barrier uses the process-wide hook
+	nl := r.Pick(200, 6000)
+	for i := 0; i < nl; i++ {
+		if i%r.NShards == r.Shard {
+			lifeScript(r, i, "C03")
+		}
+	}
 }
